@@ -132,6 +132,7 @@ SPEC = dict(
         'a failing cleanup (set_error on a cleanup receiver) is reported with the CLEANUP\'s error; on the error path the parked stream error is then dropped (destroyed with the cleanup operation that holds it): taken from the code, the property text does not say which of the two errors wins',
         'start(): when the FIRST connect(next(stream)) throws, set_error(current_exception) is delivered without cleanup(stream): no next() was ever started, which is all the property demands',
         'the element-by-element recursion (a next() completing inside start) is not unrolled: one element per unit, chained by the lifecycle lemma; termination / stack depth not claimed',
+        'payload ownership: a completion payload received BY REFERENCE is taken to live in the child operation state that produced it (e.g. next(stream) = just(x)) and to die with it; BY VALUE it lives in the callback\'s own frame. The reference token of the four declarators is extracted from the source (sv_ref / ne_ref / ee_ref / de_ref); the generic set_error(Error&& e) overload converts to an exception_ptr BEFORE the next operation is destroyed (it forwards to the by-value overload)',
         'sequential code: no atomics, vf_interfere is empty; the union members, state_ and ex_ are touched only by the extracted spans (closed-world scan)',
     ],
     drops=['template genericity (StreamSender, State, ReducerFunc, Receiver)', 'element values beyond one scalar token; error payloads -> integer tokens (std::exception_ptr copies/moves are tokens)',
